@@ -264,15 +264,20 @@ def decode_op(line):
     for t in toks:
         if re.fullmatch(r"([0-9a-f]{2})+", t):
             out.append(unhex(t).decode("latin-1"))
+        elif re.fullmatch(r"[a-z]+=([0-9a-f]{2})+", t):
+            k, v = t.split("=", 1)
+            out.append(k + "=" + unhex(v).decode("latin-1"))
         else:
             out.append(t)
     return out
 
 
-def finding_matches(f, prop, op_line):
+def finding_matches(f, prop, op_line, what=None):
     if f.get("property") != prop or f.get("status") != "open":
         return False
     m = f.get("match", {})
+    if "what_regex" in m and (what is None or not re.search(m["what_regex"], what)):
+        return False
     toks = op_line.split(" # ")[0].split()
     if "stream" in m and (len(toks) < 1 or toks[0] != m["stream"]):
         return False
